@@ -1,0 +1,108 @@
+//go:build verif
+// +build verif
+
+package core
+
+import (
+	"strconv"
+
+	"com.tuntun.rangers/node/src/common"
+	"com.tuntun.rangers/node/src/middleware/db"
+	"com.tuntun.rangers/node/src/middleware/log"
+	"com.tuntun.rangers/node/src/middleware/types"
+)
+
+// Verification hook H4 (build tag verif, add-only), group-chain part: lets a
+// harness boot the group chain alone on the node's store, re-run its start-up
+// on the same store (restart), and reach the unexported removal path that a
+// group fork switch uses. Nothing here is compiled without the tag.
+
+// VerifInitGroupChain runs the node's group-chain start-up (initGroupChain) with
+// the given consensus helper. If a chain is already open it is discarded first
+// the way a process exit would (its private joined-groups LevelDB is closed so
+// the directory lock is free); the shared "group" store stays as it is on disk.
+// The chain's store is wrapped with db.VerifWrap so db.VerifWriteHook sees every
+// Put/Delete the chain performs afterwards.
+func VerifInitGroupChain(helper types.ConsensusHelper) {
+	idx := strconv.Itoa(common.InstanceIndex)
+	if logger == nil {
+		logger = log.GetLoggerByIndex(log.CoreLogConfig, idx)
+	}
+	if syncLogger == nil {
+		syncLogger = log.GetLoggerByIndex(log.SyncLogConfig, idx)
+	}
+	consensusHelper = helper
+	if groupChainImpl != nil && groupChainImpl.joinedGroups != nil {
+		groupChainImpl.joinedGroups.Close()
+		groupChainImpl.joinedGroups = nil
+	}
+	groupChainImpl = nil
+	// A start-up that panics leaves its freshly opened joined-groups LevelDB (a local
+	// of initGroupChain) locked inside this process; a real restart is a new process.
+	// Give the next start-up a fresh joined-groups directory in that case.
+	if verifJgsGen > 0 {
+		common.GlobalConf.SetString(common.ConfigSec, common.DefaultJoinedGroupDatabaseKey, "jgs_verif"+strconv.Itoa(verifJgsGen))
+	}
+	defer func() {
+		if r := recover(); r != nil {
+			verifJgsGen++
+			panic(r)
+		}
+	}()
+	initGroupChain()
+	groupChainImpl.groups = db.VerifWrap(groupChainImpl.groups)
+}
+
+var verifJgsGen int
+
+// VerifDropGroupChain forgets the in-memory chain (process death) without
+// touching the store.
+func VerifDropGroupChain() {
+	if groupChainImpl != nil && groupChainImpl.joinedGroups != nil {
+		groupChainImpl.joinedGroups.Close()
+		groupChainImpl.joinedGroups = nil
+	}
+	groupChainImpl = nil
+}
+
+// VerifGroupChainRemove calls groupChain.remove(group) under the chain lock.
+func VerifGroupChainRemove(group *types.Group) bool {
+	chain := groupChainImpl
+	chain.lock.Lock()
+	defer chain.lock.Unlock()
+	return chain.remove(group)
+}
+
+// VerifGroupChainRemoveFromCommonAncestor is the fork-switch entry point
+// (groupChainFork.triggerOnChain calls it with the common ancestor).
+func VerifGroupChainRemoveFromCommonAncestor(commonAncestor *types.Group) {
+	groupChainImpl.removeFromCommonAncestor(commonAncestor)
+}
+
+// VerifGroupChainDump returns every key/value of the chain's store (keys without
+// the store prefix), in LevelDB key order.
+func VerifGroupChainDump() [][2][]byte {
+	res := make([][2][]byte, 0)
+	it := groupChainImpl.groups.NewIterator()
+	defer it.Release()
+	for it.Next() {
+		k := append([]byte{}, it.Key()...)
+		v := append([]byte{}, it.Value()...)
+		if len(k) >= len(groupChainPrefix) {
+			k = k[len(groupChainPrefix):]
+		}
+		res = append(res, [2][]byte{k, v})
+	}
+	return res
+}
+
+// VerifGroupChainMemCount / VerifGroupChainMemLast expose the in-memory mirror.
+func VerifGroupChainMemCount() uint64 { return groupChainImpl.count }
+
+// VerifGroupChainHeightKey is the store key of the height index entry i.
+func VerifGroupChainHeightKey(i uint64) []byte { return generateKey(i) }
+
+// VerifGroupChainSyncByHeight is groupChain.GetSyncGroupsByHeight (not part of the GroupChain interface).
+func VerifGroupChainSyncByHeight(height uint64, limit int) []*types.Group {
+	return groupChainImpl.GetSyncGroupsByHeight(height, limit)
+}
